@@ -30,6 +30,7 @@ def cfg_for(gated: set) -> pg.GenCfg:
     forms = pg.ALL_REEXPORT_FORMS
     cfg = pg.GenCfg()
     cfg.twins = True
+    cfg.private_name_clashes = True
     cfg.reexport_forms = tuple(f for f in forms if f"reexport:{f}" not in gated)
     cfg.p_private_decl = 0.4
     cfg.p_private_mod = 0.35
